@@ -4,7 +4,6 @@ import re
 PROPS = {
     "C12": {
         "modules": ["Ark.Props.C12"],
-        "claimed": False,
         "crate": "harness2",
         "rule": "one op line per subgroup test / cofactor clearing / cofactor-inverse / sampling call on a point of the WHOLE curve; distinct = distinct op line; non-trivial = non-identity point",
         "exhaustive": ["every point of five toy curves with cofactors 4, 6, 8 (SW and TE)"],
@@ -28,8 +27,7 @@ PROPS = {
         "assumptions": ["a quadratic extension over a base without sqrt precomputation (Fp12 over Fp6 3-over-2) has no square-root algorithm: outside the quantifier (verdict note)"],
     },
     "C04": {
-        "modules": ["Ark.Props.C04"],
-        "claimed": False,
+        "modules": ["Ark.Props.C04a", "Ark.Props.C04b"],
         "rule": "one op line per scalar-multiplication call (algorithm, curve, point, scalar, window/table parameters); distinct = distinct op line; non-trivial = scalar outside {0,1} and non-identity point",
         "exhaustive": ["all points x all k in 0..2#E+1 on seven toy curves over F_13 for the double-and-add and scalar paths"],
         "partial": [],
